@@ -9,6 +9,7 @@ import (
 
 	"github.com/ory/x/otelx"
 	"github.com/ory/x/pointerx"
+	"github.com/pkg/errors"
 	"go.opentelemetry.io/otel/trace"
 
 	"github.com/ory/keto/internal/driver/config"
@@ -214,6 +215,9 @@ func (m *Mapper) FromTuple(ctx context.Context, ts ...*ketoapi.RelationTuple) (r
 
 	for _, t := range ts {
 		t := t
+		if t == nil {
+			return nil, errors.WithStack(ketoapi.ErrIncompleteTuple)
+		}
 		n, err := nm.GetNamespaceByName(ctx, t.Namespace)
 		if err != nil {
 			return nil, err
